@@ -8,7 +8,7 @@ import common
 import reactor_drv as rd
 
 LEVEL = 'proof'
-TRUSTED_EXTRA = ['harness/pytrans5.py: fail-closed translator of Reactor.write / _socket_write_ready / _outbox_read_ready (hpfeeds/blocking/reactor.py) -> coq/ReactorGen.v (regenerated on every run), with coq/PyReactor.v (what sock.send and get_nowait do on a call is an oracle argument: took n bytes / socket.error(errno) / queue.Empty); the translated methods are proved to be the steps of the model in coq/ReactorGenEq.v (rrun_src = rrun, no axioms); Queue.put / Queue.get (hpfeeds/blocking/queue.py) are translated into their sequences of primitive steps of the queue model; hand-written: which descriptor select() reports in _select, the atomicity of each primitive and the enabling conditions of the queue model, threads']
+TRUSTED_EXTRA = ['harness/pytrans5.py: fail-closed translator of Reactor.write / _socket_write_ready / _outbox_read_ready (hpfeeds/blocking/reactor.py) -> coq/ReactorGen.v (regenerated on every run), with coq/PyReactor.v (what sock.send and get_nowait do on a call is an oracle argument: took n bytes / socket.error(errno) / queue.Empty); the translated methods are proved to be the steps of the model in coq/ReactorGenEq.v (rrun_src = rrun, no axioms); Queue.put / Queue.get (hpfeeds/blocking/queue.py) are translated into their sequences of primitive steps of the queue model; Reactor._select is translated too (descriptor lists as pairs, select() an oracle intersected with what was asked for); hand-written: WHAT select() reports (the socket writable when asked, the outbox readable iff it holds a frame, nothing to read on the socket during a write-path step), the atomicity of each primitive and the enabling conditions of the queue model, threads']
 ASSUMPTIONS = ['thread interleaving is abstracted to atomic sub-steps (enqueue item / send wake byte; receive wake byte / dequeue); '
                'pre-emption inside queue.Queue.put or socket.send is the runtime\'s and is not modelled',
                'one connection: frames written while the reactor is between connections are outside the modelled write path']
